@@ -18,6 +18,7 @@ symbolic callables with their evaluated arguments, and attribute / item stores o
 
 Anything outside the supported subset raises Undecidable (an analysis error, never a violation)."""
 import ast
+import re
 from .report import AnalysisError
 
 
@@ -116,6 +117,71 @@ class Path:
         self.cursor = 0
         self.events = []
         self.notes = []
+        self.symtab = {}                     # id(dict) -> {text of a symbolic key: value stored under it}
+
+
+def subst(v, name, new):
+    """the value with every leaf symbol called `name` replaced by `new` (structure rebuilt; texts recomputed from the structure)"""
+    if isinstance(v, Sym):
+        if not v.struct:
+            return new if v.text == name else v
+        st = v.struct
+        kind = st[0]
+        if kind == 'binop':
+            l, r = subst(st[2], name, new), subst(st[3], name, new)
+            if l is st[2] and r is st[3]:
+                return v
+            if is_concrete(l) and is_concrete(r):
+                try:
+                    return {'+': lambda: l + r, '-': lambda: l - r, '*': lambda: l * r, '/': lambda: l / r, '**': lambda: l ** r, '//': lambda: l // r, '%': lambda: l % r}[st[1]]()
+                except Exception:
+                    pass
+            return Sym('(%s %s %s)' % (show(l), st[1], show(r)), struct=('binop', st[1], l, r))
+        if kind == 'call':
+            args = tuple(subst(a, name, new) for a in st[2])
+            kws = {k: subst(x, name, new) for k, x in st[3].items()}
+            rest = tuple(subst(x, name, new) if isinstance(x, Sym) else x for x in st[4:])
+            if all(a is b for a, b in zip(args, st[2])) and all(kws[k] is st[3][k] for k in kws) and all(a is b for a, b in zip(rest, st[4:])):
+                return v
+            fname = show(rest[0]) if rest and isinstance(rest[0], Sym) and rest[0].struct and rest[0].struct[0] == 'attr' else st[1]
+            return Sym('%s(%s)' % (fname, ', '.join([show(a) for a in args] + ['%s=%s' % (k, show(x)) for k, x in kws.items()])), attrs=dict(v.attrs), struct=('call', st[1], args, kws) + rest)
+        if kind == 'index':
+            b, k = subst(st[1], name, new), subst(st[2], name, new)
+            if b is st[1] and k is st[2]:
+                return v
+            return Sym('%s[%s]' % (show(b), show(k) if not isinstance(k, tuple) else ', '.join(show(x) for x in k)), struct=('index', b, k))
+        if kind == 'attr':
+            b = subst(st[1], name, new)
+            return v if b is st[1] else Sym('%s.%s' % (show(b), st[2]), struct=('attr', b, st[2]))
+        if kind == 'compare':
+            l, r = subst(st[2], name, new), subst(st[3], name, new)
+            return v if (l is st[2] and r is st[3]) else Sym('(%s %s %s)' % (show(l), st[1], show(r)), struct=('compare', st[1], l, r))
+        if kind in ('comp', 'dictcomp'):
+            parts = tuple(subst(x, name, new) if isinstance(x, Sym) else x for x in st[1:])
+            return v if all(a is b for a, b in zip(parts, st[1:])) else Sym(v.text, struct=(kind,) + parts)
+        raise Undecidable('substitution into %s' % kind)
+    if isinstance(v, tuple):
+        out = tuple(subst(x, name, new) for x in v)
+        return v if all(a is b for a, b in zip(out, v)) else out
+    if isinstance(v, list):
+        out = [subst(x, name, new) for x in v]
+        return v if all(a is b for a, b in zip(out, v)) else out
+    if isinstance(v, slice):
+        a, b, c = subst(v.start, name, new), subst(v.stop, name, new), subst(v.step, name, new)
+        return v if (a is v.start and b is v.stop and c is v.step) else slice(a, b, c)
+    return v
+
+
+def comp_element(v, index):
+    """element number `index` (a value) of a symbolic comprehension over range(lo, ...) with unit step, else None"""
+    if isinstance(v, Sym) and v.struct and v.struct[0] == 'comp':
+        elt, itv, var = v.struct[1], v.struct[2], v.struct[3]
+        c = call_of(itv, 'range')
+        if c is not None and not c[1] and len(c[0]) in (1, 2) and re.fullmatch(r'[A-Za-z_]\w*', var or ''):
+            lo = c[0][0] if len(c[0]) == 2 else 0
+            pos = index if lo == 0 else Sym('(%s + %s)' % (show(index), show(lo)), struct=('binop', '+', index, lo))
+            return subst(elt, var, pos), (c[0][-1] if lo == 0 else None)
+    return None
 
 
 class Interp:
@@ -317,6 +383,20 @@ class Interp:
                 if not self.symbolic_loops:
                     raise
                 # one symbolic iteration: every name of the target denotes "the value in an arbitrary iteration"
+                en = call_of(itv, 'enumerate') if isinstance(itv, Sym) else None
+                if en is not None and len(en[0]) == 1 and not en[1] and isinstance(st.target, ast.Tuple) and len(st.target.elts) == 2 and isinstance(st.target.elts[0], ast.Name):
+                    # for k, x in enumerate([f(i) for i in range(n)]):  x is f(k), k runs over range(n)
+                    idx = Sym(st.target.elts[0].id)
+                    ce = comp_element(en[0][0], idx)
+                    if ce is not None and ce[1] is not None:
+                        self.path.events.append(('loop', 'range(%s)' % show(ce[1]), st.target.elts[0].id, Sym('range(%s)' % show(ce[1]), struct=('call', 'range', (ce[1],), {}))))
+                        env.set(st.target.elts[0].id, idx)
+                        self.assign(st.target.elts[1], ce[0], env)
+                        try:
+                            self.block(st.body, env)
+                        except (_Break, _Continue):
+                            pass
+                        return
                 self.path.events.append(('loop', show(itv), ast.unparse(st.target), itv))
                 item_len = itv.attrs.get('__item_length__') if isinstance(itv, Sym) else None
                 for nm in ast.walk(st.target):
@@ -458,6 +538,10 @@ class Interp:
                     raise Raised('IndexError')
                 return
             self.path.events.append(('setitem', show(base), k, v, base))
+            if isinstance(base, dict):
+                # a table filled under a symbolic key ("for every i: d[n, i] = f(i)"): a later lookup under the same key expression
+                # reads f at that key
+                self.path.symtab.setdefault(id(base), {})[show(k)] = v
             return
         raise Undecidable('assignment to %s' % ast.unparse(t)[:50])
 
@@ -507,6 +591,9 @@ class Interp:
                 if k in base:
                     return base[k]
                 raise Raised('KeyError')
+            ent = self.path.symtab.get(id(base), {})
+            if show(k) in ent:
+                return ent[show(k)]
             return Sym('%s[%s]' % (show(base), show(k)))
         if isinstance(base, range):
             return base[k]
